@@ -482,7 +482,7 @@ def stream_molecule(ctx):
                 geom = 'water'           # a geometry may also be given by name (string)
             mult = 1 if isinstance(geom, str) else \
                 rng.choice([1, 3]) if sum({'H': 1, 'Li': 3, 'O': 8, 'He': 2}[a] for a, _ in geom) % 2 == 0 else 2
-            fn = os.path.join(base, 'mol%d' % k)
+            fn = os.path.join(base, 'mol%d' % k) + ('.hdf5' if k == 3 else '')
             desc = rng.choice(['', 'test', 'r=0.7', 'a b'])
             c = {'geometry': geom, 'multiplicity': mult, 'description': desc}
             try:
@@ -509,7 +509,7 @@ def stream_molecule(ctx):
             s.case(c)
             try:
                 m.save()
-                m2 = MolecularData(filename=fn)
+                m2 = MolecularData(filename=fn[:-5] if k == 3 else (fn + '.hdf5' if k == 4 else fn))
                 m2.save()
                 m3 = MolecularData(filename=fn)
                 m3.save()
